@@ -437,7 +437,14 @@ impl WriterBuilder {
             ));
         }
         let (schema, encoder) = self.prepare_encoder::<F>()?;
-        format.start_stream(&mut writer, &schema, self.codec)?;
+        // The records are encoded with the Avro schema supplied in the Arrow metadata (if any),
+        // so the stream header has to advertise that schema and not one derived from Arrow
+        let header_schema = if self.schema.metadata.contains_key(SCHEMA_METADATA_KEY) {
+            schema.as_ref()
+        } else {
+            &self.schema
+        };
+        format.start_stream(&mut writer, header_schema, self.codec)?;
         Ok(Writer {
             writer,
             schema,
